@@ -223,6 +223,7 @@ func (e *Env) field(base Value, name string, ex *Expr) Value {
 		}
 		_ = ft
 		if _, isStruct := cur.Underlying().(*types.Struct); isStruct {
+			np.lval = true
 			return np // stay a pointer to the embedded struct (lvalue)
 		}
 		return e.x.loadPtr(e.st, np)
@@ -347,6 +348,21 @@ func (e *Env) valueEq(a, b Value, ex *Expr) Term {
 			return Eq(av.Ref, IntLit(0))
 		case FuncV:
 			return Eq(av.T, IntLit(0))
+		}
+	}
+	// two struct-typed field selections: compare the struct values, not their addresses
+	if pa, ok := a.(PtrV); ok && pa.lval {
+		switch pb := b.(type) {
+		case PtrV:
+			if pb.lval {
+				a, b = e.x.loadPtr(e.st, pa), e.x.loadPtr(e.st, pb)
+			}
+		case StructV:
+			a = e.x.loadPtr(e.st, pa)
+		}
+	} else if pb, ok := b.(PtrV); ok && pb.lval {
+		if _, isS := a.(StructV); isS {
+			b = e.x.loadPtr(e.st, pb)
 		}
 	}
 	as, ok1 := a.(Scalar)
@@ -572,7 +588,12 @@ func (e *Env) call(ex *Expr) Value {
 			n.names = m
 		}
 		n.assuming = false
-		return n.eval(args[0])
+		ov := n.eval(args[0])
+		if pv, ok := ov.(PtrV); ok && pv.lval {
+			// a struct-typed field selection denotes the struct value of the old state
+			return e.x.loadPtr(n.st, pv)
+		}
+		return ov
 	case "hd":
 		if e.head == nil {
 			e.fail("hd() only in loop step clauses: %s", ex)
@@ -784,6 +805,11 @@ func (e *Env) call(ex *Expr) Value {
 			return PtrV{Kind: PHeap, Ref: v.Val, Root: nt}
 		case PtrV:
 			return v
+		case Scalar:
+			// a bare reference (e.g. the value of an uninterpreted function naming an object)
+			if v.T.Sort == SInt {
+				return PtrV{Kind: PHeap, Ref: v.T, Root: nt}
+			}
 		}
 		e.fail("asptr of non-interface")
 	case "niliface":
